@@ -10,7 +10,7 @@ from ..runner import d64, digest_of, violation
 from ..transports import SimBudgetExceeded
 
 PROP = "C01"
-RUNS = {"quick": 16000, "thorough": 1200000}
+RUNS = {"quick": 48000, "thorough": 1200000}
 BLOCK = {"quick": 200, "thorough": 2000}
 SHRINK_LISTS = ["items", "decisions"]
 RULE = (
